@@ -84,6 +84,9 @@ def main():
                 meta = d / "meta.json"
                 if meta.exists():
                     m = json.load(open(meta))
+                    if m.get("neutralised_by"):
+                        print(f"SKIPPED  {d.relative_to(ROOT)}: no longer breaks the property ({m['neutralised_by'][:60]}...)")
+                        continue
                     jobs.append((str(d.relative_to(ROOT)), m.get("caught_by") or m.get("properties") or [m.get("property")]))
     detected = missed = 0
     rows = []
